@@ -646,6 +646,7 @@ func runC13(c *hx.Ctx) {
 		c.Stat("scenarios", 1)
 	}
 	staggeredContenders(o, c)
+	willBeforeTakeover(o, c)
 	takeoverDuringDequeue(o, c)
 	blockedTakeover(o, c)
 	// session handover: the persistent session passes to the newcomer without loss or duplication
@@ -705,6 +706,67 @@ func runC13(c *hx.Ctx) {
 // four connections with one id arrive staggered while the Terminate of the first two is held back, so
 // that each newcomer reaches Setup while the previous takeover is still in progress: in the end exactly
 // one of them may be live
+// willBeforeTakeover: the displaced connection is fully terminated — its will handed to the backend — before the newcomer's
+// Setup returns (and so before its CONNACK).  The backend is slow at publishing wills, so a newcomer that does not wait is
+// visibly early.  Judged on the backend log: WillDone(old) precedes SetupRet(new) for the same id.
+func willBeforeTakeover(o *out, c *hx.Ctx) {
+	for _, how := range []string{"takeover", "takeover-clean", "takeover-mid-traffic"} {
+		n := o.scn("c13 will published before the newcomer is acknowledged: " + how)
+		s := startSys(3, 100)
+		s.backend.willDelay = 150 * time.Millisecond
+		old, _ := dialPeer("old", s.port, false)
+		old.connect("wb", how == "takeover-clean", &packet.Message{Topic: "will/wb", Payload: []byte("w"), QOS: 1})
+		old.subscribe(1, "t/#", 1)
+		watcher, _ := dialPeer("watch", s.port, true)
+		watcher.connect("watch", true, nil)
+		watcher.subscribe(1, "will/#", 1)
+		if how == "takeover-mid-traffic" {
+			for i := 0; i < 3; i++ {
+				watcher.send(&packet.Publish{ID: packet.ID(50 + i), Message: packet.Message{Topic: "t/x", Payload: payload(0, 1, i), QOS: 1}})
+			}
+		}
+		np, _ := dialPeer("new", s.port, true)
+		ack := np.connect("wb", how == "takeover-clean", nil)
+		ackAt := time.Now()
+		// the watcher has the will by the time the newcomer holds its CONNACK (allowing for the delivery hop)
+		watcher.idle(20*time.Millisecond, time.Second)
+		wills := 0
+		for _, p := range watcher.received() {
+			if p.Message.Topic == "will/wb" {
+				wills++
+			}
+		}
+		_ = ackAt
+		lines := s.backend.log.snapshot()
+		oldID, newID := "1", ""
+		order := []string{}
+		for _, l := range lines {
+			f := strings.Fields(l)
+			cid := f[len(f)-1]
+			switch {
+			case f[0] == "SetupCall" && f[1] == hx.Hx([]byte("wb")) && cid != oldID && newID == "":
+				newID = cid
+			}
+		}
+		for _, l := range lines {
+			f := strings.Fields(l)
+			cid := f[len(f)-1]
+			if (f[0] == "WillDone" && cid == oldID) || (f[0] == "SetupRet" && cid == newID) || (f[0] == "Term" && cid == oldID) {
+				order = append(order, f[0])
+			}
+		}
+		okOrder := ack != nil && len(order) == 3 && order[2] == "SetupRet"
+		o.direct("will_before_takeover", n, okOrder, fmt.Sprintf("backend log order for the displaced connection and the newcomer: %v (WillDone and Term before SetupRet expected)", order))
+		o.direct("will_once", n, wills == 1, fmt.Sprintf("will of the displaced holder seen %d time(s)", wills))
+		np.close()
+		old.close()
+		watcher.close()
+		s.stop()
+		o.syslog(n, s)
+		c.Stat("scenarios", 1)
+	}
+}
+
 func staggeredContenders(o *out, c *hx.Ctx) {
 	n := o.scn("c13 staggered contenders with held-back Terminate")
 	s := startSys(3, 100)
